@@ -68,6 +68,10 @@ def shards(tier: str, seed: int) -> list:
     # scale lane: five member files of ordinary size (0.5-1 M items, two of them tiny); reduced alphabet, every (position, position, read) triple
     for nbits in ((8, 2, 32) if tier == "quick" else b["depths"]):
         out.append({"kind": "scale", "nbits": nbits, "lengths": SCALE_LENGTHS})
+    # single reads of more than 16 MiB inside one member and across a boundary (two members of 20 MiB and 5 MiB)
+    out.append({"kind": "scale", "nbits": 8, "lengths": [20 * (1 << 20), 5 * (1 << 20) + 1], "big_reads": True})
+    if tier == "thorough":
+        out.append({"kind": "scale", "nbits": 32, "lengths": [5 * (1 << 20), 3 * (1 << 20) + 1], "big_reads": True})
     return out
 
 
@@ -445,8 +449,14 @@ def _scale(wd, shard, ctx, res, only=None):
     M, paths, fbounds = _scale_setup(wd, nbits, lengths, ctx.seed)
     L = len(M)
     P = _scale_positions(L, isz, fbounds)
-    Q = [0, fbounds[0], fbounds[2] + isz, L - isz]
+    Q = [0, fbounds[0], fbounds[min(2, len(fbounds) - 1)] + isz, L - isz]
     cases = [[q, p, list(op)] for p in P for q in Q for op in _scale_reads(p, L, isz, fbounds)]
+    if shard.get("big_reads"):
+        M16 = (1 << 24) // isz
+        cases = []
+        for p in (0, isz, (1 << 20) * isz):
+            for k in sorted({M16, M16 + 1, (fbounds[0] - p) // isz, (fbounds[0] - p) // isz + 1, (L - p) // isz}):
+                cases += [[0, p, ["cread", k]], [fbounds[0], p, ["creadinto", k * isz]]]
     if only is not None:
         cases = [only["scale"]]
     for q, p, op in cases:
